@@ -214,3 +214,44 @@ def in_range(text, line, column):
     elif s.endswith("\n") or s.endswith("\r"):
         s = s[:-1]
     return 0 <= column <= len(s)
+
+
+# ---------------------------------------------------------------- valid sources (C04/C17/C18)
+LAYOUT_MUTATORS = ["none", "none", "crlf", "cr", "mixed_eol", "formfeed", "continuation", "strip_final_nl",
+                   "unicode_ident", "tabs", "dup_line"]
+
+
+@lru_cache(None)
+def _chunks(max_lines=90):
+    """Top-level-statement-aligned chunks of the valid corpus files (each chunk compiles)."""
+    out = []
+    for name, text in valid_files():
+        try:
+            tree = ast.parse(text)
+        except (SyntaxError, ValueError, RecursionError):
+            continue
+        lines = text.split("\n")
+        if len(lines) <= max_lines:
+            out.append((name, text))
+            continue
+        stmts = tree.body
+        i = 0
+        while i < len(stmts):
+            first = stmts[i]
+            start = min([first.lineno] + [d.lineno for d in getattr(first, "decorator_list", [])])
+            j = i
+            while j + 1 < len(stmts) and stmts[j + 1].end_lineno - start < max_lines:
+                j += 1
+            end = stmts[j].end_lineno
+            chunk = "\n".join(lines[start - 1:end]) + "\n"
+            if is_compilable(chunk):
+                out.append(("%s@L%d-%d" % (name, start, end), chunk))
+            i = j + 1
+    return out
+
+
+@st.composite
+def valid_sources(draw, max_lines=90):
+    name, text = draw(st.sampled_from(_chunks(max_lines)))
+    text, applied = draw(mutate(text, kinds=LAYOUT_MUTATORS))
+    return name, text, [a for a in applied if a != "none"]
